@@ -498,6 +498,8 @@ def check_homogeneous(ck, F, S):
     check_scope_lookup(ck, F, S)
     check_tree_lookup(ck, F)
     check_homogeneous_lookup(ck, F, S)
+    import c17 as _c17
+    _c17.insertion_order(ck, F, 'C07')          # the stores behind the homogeneous scopes keep entry order (first match = first entered)
     import c12 as _c12
     from symex import Sym as _Sym
     _c12.positions_rule(ck, F, _Sym(F, opaque=contracts.default_opaque(F), max_depth=64), prefix='C07')
